@@ -27,7 +27,10 @@ REAL = ['real-timeout-propagates', 'real-timeout-caught', 'real-timeout-caught-t
 NOCTX = ['no-context-normal', 'no-context-error']
 # the block is left normally, but the peer never confirms the release
 UNANSWERED = ['release-unanswered']
-VARIANTS = HAND + NESTED + REAL + NOCTX + UNANSWERED
+# the block is left normally while the *caller* is busy with an error of its own: the association is
+# requested inside an ``except`` clause / inside a ``finally`` that runs because of an unrelated error
+HANDLING = ['normal-while-handling', 'normal-in-finally-of-error']
+VARIANTS = HAND + NESTED + REAL + NOCTX + UNANSWERED + HANDLING
 POINTS = ['before', 'between', 'during']
 ACCEPTORS = ['lib', 'refpeer']
 
@@ -198,7 +201,7 @@ def run_case(res, case, attempt=0):
             state['planned_timeout'] = True
             assoc.ae.timeout = 0.5           # give up on the release confirmation soon
             return
-        if variant == 'no-context-normal':
+        if variant == 'no-context-normal' or variant in HANDLING:
             return
         if variant == 'no-context-error':
             assoc.get_scu(svc.VERIFICATION)          # raises: no context was accepted for it
@@ -244,11 +247,28 @@ def run_case(res, case, attempt=0):
 
                 def drive(port):
                     remote = {'aet': 'C14SCP', 'address': '127.0.0.1', 'port': port}
-                    try:
-                        with client.request_association(remote) as assoc:
-                            body(assoc, inner_remote)
-                    except Exception as exc:
-                        state['error'] = exc
+
+                    def go():
+                        try:
+                            with client.request_association(remote) as assoc:
+                                body(assoc, inner_remote)
+                        except Exception as exc:
+                            state['error'] = exc
+                    if variant == 'normal-while-handling':
+                        try:
+                            raise Foreign('an unrelated failure the application is recovering from')
+                        except Foreign:
+                            go()
+                    elif variant == 'normal-in-finally-of-error':
+                        try:
+                            try:
+                                raise Foreign('an unrelated failure on its way up')
+                            finally:
+                                go()
+                        except Foreign:
+                            pass
+                    else:
+                        go()
                 if acceptor == 'lib':
                     server = Server('C14SCP', 0, max_pdu_length=1024)
                     server.net = net
@@ -295,7 +315,7 @@ def run_case(res, case, attempt=0):
                limit=8)
     res.count('oracle.context-manager')
     normal_exit = variant in ('real-timeout-caught', 'real-timeout-caught-then-echo', 'nested-same-entity-normal',
-                              'no-context-normal')
+                              'no-context-normal') or variant in HANDLING
     # --- the error (or its absence) the application sees
     want_type = {'nested-abort': exceptions.AssociationAbortedError,
                  'nested-same-entity-abort': exceptions.AssociationAbortedError,
